@@ -16,6 +16,10 @@ Extracted with the brace parser of c01_blocker_structure.py and a condition pars
     occurrence: the regex on the URL from `get_url_after_anchor` on (offset `len - len`), a call to
     the `pattern|` matcher, or `filters.any(..)` with a predicate over the URL after the hostname —
     each behind "no pattern = match".
+  * `anchored_hostname_end` (module AnchorGen): the two early returns, the loop condition, how the
+    next occurrence is located (`memmem::find` on the hostname from `search_from`, `?` = give up),
+    `match_end`, the label tests `starts_label` / `ends_label` as formulas over named atoms, the
+    accepting return and the step `search_from = match_index + <k>`.
 Struct_Matchers_Proofs.v interprets this structure over C02_Model's helpers and proves that for
 every mask shape, pattern list, rule hostname and request it IS C02_Model.check_pattern_sh.
 Any other spelling fails closed.
@@ -181,6 +185,99 @@ def closure_pred(t, table, die, who):
     return table[m.group(1)]
 
 
+# ------------------------------------------------------------------ anchored_hostname_end
+AH_ATOMS = [
+    ("match_index==0", "H_at_start"),
+    ("filter_hostname.starts_with('.')", "H_filter_starts_dot"),
+    ("hostname.as_bytes()[match_index-1]==b'.'", "H_prev_is_dot"),
+    ("match_end==hostname_len", "H_at_end"),
+    ("at_hostname_end", "H_must_end"),
+    ("wildcard_filter_hostname", "H_wildcard"),
+    ("filter_hostname.ends_with('.')", "H_filter_ends_dot"),
+    ("hostname.as_bytes()[match_end]==b'.'", "H_next_is_dot"),
+]
+
+
+def parse_hform(text, die):
+    t = norm(text)
+    pos = [0]
+
+    def peek(k=1):
+        return t[pos[0]:pos[0] + k]
+
+    def atom():
+        if peek() == "!":
+            pos[0] += 1
+            return "(HNot %s)" % atom()
+        if peek() == "(":
+            pos[0] += 1
+            e = disj()
+            if peek() != ")":
+                die("anchored_hostname_end: ')' expected in %r" % text)
+            pos[0] += 1
+            return e
+        for k, v in AH_ATOMS:
+            if t.startswith(k, pos[0]):
+                pos[0] += len(k)
+                return "(HAtom %s)" % v
+        die("anchored_hostname_end: unknown atom at %r" % t[pos[0]:pos[0] + 50])
+
+    def conj():
+        e = atom()
+        while peek(2) == "&&":
+            pos[0] += 2
+            e = "(HAnd %s %s)" % (e, atom())
+        return e
+
+    def disj():
+        e = conj()
+        while peek(2) == "||":
+            pos[0] += 2
+            e = "(HOr %s %s)" % (e, conj())
+        return e
+
+    e = disj()
+    if pos[0] != len(t):
+        die("anchored_hostname_end: trailing text %r" % t[pos[0]:])
+    return e
+
+
+def generate_anchor(b, die):
+    body = norm(_bs.fn_body(
+        b, r"fn anchored_hostname_end\(\s*filter_hostname: &str,\s*hostname: &str,\s*wildcard_filter_hostname: bool,"
+           r"\s*at_hostname_end: bool,\s*\)\s*->\s*Option<usize>\s*\{", die))
+    m = re.fullmatch(
+        r"letfilter_hostname_len=filter_hostname\.len\(\);"
+        r"iffilter_hostname_len==0\{returnSome\((\d+)\);\}"
+        r"lethostname_len=hostname\.len\(\);"
+        r"iffilter_hostname_len>hostname_len\{returnNone;\}"
+        r"letmutsearch_from=(\d+);"
+        r"whilesearch_from\+filter_hostname_len<=hostname_len\{"
+        r"letmatch_index=search_from\+memmem::find\(&hostname\.as_bytes\(\)\[search_from\.\.\],filter_hostname\.as_bytes\(\),\)\?;"
+        r"letmatch_end=match_index\+filter_hostname_len;"
+        r"letstarts_label=(.*?);"
+        r"letends_label=(.*?);"
+        r"ifstarts_label&&ends_label\{returnSome\(match_end\);\}"
+        r"search_from=match_index\+(\d+);\}None", body)
+    if not m:
+        die("anchored_hostname_end: the function is not recognised: %r" % body[:300])
+    empty_ret, start, sl, el, step = m.groups()
+    return ["Module AnchorGen.",
+            "Inductive hatom := H_at_start | H_filter_starts_dot | H_prev_is_dot | H_at_end | H_must_end",
+            "  | H_wildcard | H_filter_ends_dot | H_next_is_dot.",
+            "Inductive hform := HAtom (a : hatom) | HNot (f : hform) | HAnd (a b : hform) | HOr (a b : hform).",
+            "Definition empty_filter_hostname_answer : N := %s." % empty_ret,
+            "Definition longer_than_hostname_is_none : bool := true.",
+            "Definition search_start : N := %s." % start,
+            "Definition loop_while : string := \"search_from+filter_hostname_len<=hostname_len\".",
+            "Definition not_found_is_none : bool := true.",
+            "Definition starts_label : hform := %s." % parse_hform(sl, die),
+            "Definition ends_label : hform := %s." % parse_hform(el, die),
+            "Definition accept : string := \"starts_label&&ends_label\".",
+            "Definition search_step : N := %s." % step,
+            "End AnchorGen."]
+
+
 def generate(src, die, coq_str):
     b = _bs.strip_comments(src("src/filters/network_matchers.rs"))
 
@@ -271,4 +368,4 @@ def generate(src, die, coq_str):
            "Definition hostname_matchers : list (string * (mform * htail)) := [%s]." % "; ".join(
                "(%s, (%s, %s))" % (coq_str(n), coq_form(me), tl) for n, me, tl in hostm),
            "End MatchGen."]
-    return out
+    return out + generate_anchor(b, die)
